@@ -40,6 +40,8 @@ def handle (line : String) : String :=
   else if l.startsWith "idxenvelope " then handleIdxEnvelope l
   else if l.startsWith "preload " then handlePreload l
   else if l.startsWith "load2 " then handleLoad2 l
+  else if l.startsWith "machcount " then handleMachCount l
+  else if l.startsWith "trapglobals " then handleTrapGlobals l
   else if l.startsWith "dumpspec " then handleDumpSpec l
   else if l.startsWith "e2edump " then handleE2eDump l
   else "bad"
